@@ -42,7 +42,7 @@ def fn_items():
     return [('fn', 'file', s, i) for s, i in FN_FILE] + [('fn', 'block', s, i) for s, i in FN_BLOCK]
 
 
-def render(seq, k, asm=None, use=True):
+def render(seq, k, asm=None, asm_at=0, use=True):
     """one source line for identifier number k"""
     x = 'x%d' % k
     parts = []
@@ -52,7 +52,7 @@ def render(seq, k, asm=None, use=True):
         if '[' in spec:
             spec, dim = spec[:spec.index('[')].strip(), spec[spec.index('['):]
         sp = spec + ' ' if spec else ''
-        lab = ' __asm__("%s")' % asm if asm and j == 0 else ''
+        lab = ' __asm__("%s")' % asm if asm and j == asm_at else ''
         if kind == 'obj':
             d = '%sint %s%s%s%s;' % (sp, x, dim, lab, (' = { %d, 2 }' if dim else ' = %d') % (100 * (k % 1000) + j + 1) if init else '')
             if scope == 'block':
@@ -140,6 +140,9 @@ def judge(ck, ident, asmname, text, cdefs, crefs, rsyms, robj, files):
             ri = robj.symbol_image(name)
             if ri['size'] != c['size'] or ri['bytes'] != c['bytes']:
                 problems.append('%s: %d bytes %s, reference %d bytes %s' % (name, c['size'], c['bytes'][:8].hex(), ri['size'], ri['bytes'][:8].hex()))
+    if asmname and asmname != ident and (ident in cdefs or ident in crefs) != (ident in rsyms):
+        problems.append('plain name %s %s in the IL although the assembler label %s names the symbol (reference object: %s)'
+                        % (ident, 'appears' if (ident in cdefs or ident in crefs) else 'is missing', asmname, 'has it' if ident in rsyms else 'has no such symbol'))
     # undefined references
     rund = r is not None and not r['defined']
     cund = name in crefs and c is None
@@ -233,7 +236,9 @@ def _unit(args):
         problems = judge(None, ident, asm, text, cdefs, crefs, rsyms, robj, None)
         rec = {'k': d.id, 'decided': True, 'shape': shape(seq), 'len': len(seq), 'kind': seq[0][0],
                'state': (a['defined'], a['bind'] != elfread.STB_LOCAL, a['tls']) if a else None}
-        if problems:
+        if problems and asm and seq[0][1] == 'block' and len(seq) > 1 and all('label' in p_ or asm in p_ for p_ in problems):
+            rec['violation'] = ('witness:block-extern-label-not-carried', '%s  <- history: %s' % ('; '.join(problems), text[:300]), text, seq)
+        elif problems:
             rec['violation'] = ('symtab:' + shape(seq), '%s  <- history: %s' % ('; '.join(problems), text[:300]), text, seq)
         out.append(rec)
     return out
@@ -264,8 +269,10 @@ def random_units(r, n):
     for i in range(n):
         items = items_o if r.random() < 0.5 else items_f
         seq = tuple(r.choice(items) for _ in range(r.choice([1, 1, 2, 2, 3, 4, 5])))
-        asm = (r.choice(ASMNAMES[:5]) % i) if r.random() < 0.6 and seq[0][1] == 'file' else None
-        out.append((seq, asm))
+        # the label goes on the first declaration of the identifier (labels added by later redeclarations are outside C11 and the GNU rules differ)
+        elig = [j for j, (kind, scope, spec, init) in enumerate(seq[:1]) if scope == 'file' or spec.startswith(('static', 'extern'))]
+        asm = (r.choice(ASMNAMES[:5]) % i) if r.random() < 0.6 and elig else None
+        out.append((seq, (asm, r.choice(elig)) if asm else None))
     return out
 
 
@@ -283,9 +290,10 @@ def run(tier):
     prefix = 'void *vf_sink;\n'
     for i in range(0, len(allh), B):
         items = []
-        for j, (seq, asm) in enumerate(allh[i:i + B]):
+        for j, (seq, asmx) in enumerate(allh[i:i + B]):
             k = i + j
-            items.append((k, seq, asm, render(seq, k, asm)))
+            asm, at = asmx if asmx else (None, 0)
+            items.append((k, seq, asm, render(seq, k, asm, asm_at=at)))
         work.append((exe, wd, 'u%d' % (i // B), prefix, items))
     seen_states = set()
     for lst in common.pmap(_unit, work):
@@ -306,7 +314,7 @@ def run(tier):
                 key, summary, text, seq = rec['violation']
                 ck.violation(key, summary, {'input.c': (text or '') + '\n'}, {'history': shape(seq) if seq else None}, text=text or '')
     ck.sample({'history': shape(allh[5000][0]), 'source': render(allh[5000][0], 5000)})
-    ck.sample({'history': shape(allh[-1][0]), 'source': render(allh[-1][0], len(allh) - 1, allh[-1][1])})
+    ck.sample({'history': shape(allh[-1][0]), 'source': render(allh[-1][0], len(allh) - 1, *(allh[-1][1] or (None, 0)))})
     ck.rule = ('all histories of 1..%d declarations of one identifier over %d object items and %d function items (specifier x scope x initialiser/body), each followed by a use at file scope, plus random '
                'histories with assembler labels; valid = accepted by gcc and clang -std=c11 -pedantic-errors; distinct = history shape' % (maxlen, len(obj_items()), len(fn_items())))
     ck.assumptions = ['gcc 12 -O0 -fno-common and clang 14 symbol tables are the C11 6.2.2/6.9 reference where they agree', 'block-scope statics are matched by count, locality, thread marking and initial bytes (names are private)']
